@@ -3,8 +3,10 @@
    size, alignment, scalar leaves with offsets, byte map, classification vector.
    Exhaustive mode: shapes of 1..MaxFields scalar fields, and shapes of 1..MaxCFields fields of which exactly
    one is compound (nested struct of 1..NestMax scalars, or array of length 1..3).
-   Simulation mode (tlc -simulate): Wide = TRUE lifts the one-compound restriction and allows arrays of nested
-   structs; the size bound MaxBytes keeps objects <= ~80 bytes. *)
+   Seeded walk mode (Wide = TRUE): NWalk walkers each grow one shape field by field up to MaxFields fields or
+   MaxBytes bytes; the next field is the (pseudo-random, Seed-dependent) k-th element of the alphabet; the
+   one-compound restriction is lifted and arrays of nested structs are allowed (odd walkers use scalars and
+   arrays only, so that shapes with many small fields occur as well). *)
 EXTENDS SysVAbi, Json
 
 CONSTANTS MaxFields,    \* max number of fields of an all-scalar shape
@@ -12,9 +14,11 @@ CONSTANTS MaxFields,    \* max number of fields of an all-scalar shape
           NestMax,      \* max members of a nested struct
           MaxBytes,     \* upper bound of SizeOf
           Wide,         \* BOOLEAN, see above
+          NWalk, Seed,  \* walk mode: number of walkers, seed (0..999)
           Sel, Mod      \* print only shapes whose hash is Sel modulo Mod (Mod = 1: all)
 
-VARIABLE S
+VARIABLES S, w
+vars == << S, w >>
 ScalarSeq == { s \in Scalars : TRUE }
 ScalarFields == { [t |-> t, n |-> 0, fs |-> << >>] : t \in Scalars }
 ArrayFields  == { [t |-> t, n |-> n, fs |-> << >>] : t \in Scalars, n \in 1..3 }
@@ -29,16 +33,25 @@ Alphabet == IF Wide THEN ScalarFields \cup ArrayFields \cup NestFields \cup ArrN
             ELSE ScalarFields \cup ArrayFields \cup NestFields
 
 (* candidates for the next field: exhaustive mode admits one compound field, among the first MaxCFields *)
-Cands(T) == IF Wide THEN Alphabet
-            ELSE IF NCompound(T) = 0 /\ Len(T) < MaxCFields THEN Alphabet ELSE ScalarFields
-Extendable(T) == IF Wide THEN Len(T) < MaxFields
-                 ELSE IF NCompound(T) = 0 THEN Len(T) < Max2(MaxFields, MaxCFields) ELSE Len(T) < MaxCFields
+Cands(T) == IF NCompound(T) = 0 /\ Len(T) < MaxCFields THEN Alphabet ELSE ScalarFields
+Extendable(T) == IF NCompound(T) = 0 THEN Len(T) < Max2(MaxFields, MaxCFields) ELSE Len(T) < MaxCFields
 
-Init == S = << >>
-Next == /\ Extendable(S)
-        /\ \E f \in Cands(S) : /\ S' = Append(S, f)
-                               /\ Wide => SizeOf(S') <= MaxBytes
-Spec == Init /\ [][Next]_S
+SmallSeq == SetToSeq(ScalarFields \cup ArrayFields)
+WideSeq  == SetToSeq(Alphabet)
+Pick(T, k) == LET sq == IF k % 2 = 1 THEN SmallSeq ELSE WideSeq
+                  r  == (k * 7919 + Len(T) * 104729 + (Seed % 1000) * 1299709) % Len(sq)
+              IN sq[r + 1]
+
+Init == S = << >> /\ w \in (IF Wide THEN 1..NWalk ELSE {0})
+NextExh  == /\ Extendable(S)
+            /\ \E f \in Cands(S) : S' = Append(S, f)
+            /\ w' = w
+NextWalk == /\ Len(S) < MaxFields
+            /\ S' = Append(S, Pick(S, w))
+            /\ SizeOf(S') <= MaxBytes
+            /\ w' = w
+Next == IF Wide THEN NextWalk ELSE NextExh
+Spec == Init /\ [][Next]_vars
 
 Hash(T) == LET fl == Flat(T) IN
     (SizeOf(T) + 3 * Len(fl) + 7 * Cardinality({ i \in 1..Len(fl) : IsFloat(fl[i].t) })
